@@ -91,7 +91,8 @@ class Run:
         """replay_file: a saved regression case (replays/<ID>/*.json) to run instead of generation"""
         os.makedirs(WORK, exist_ok=True)
         label = label or os.path.basename(binary)
-        out = os.path.join(WORK, f"result-{self.prop}-{label}-{os.getpid()}.json")
+        safe = "".join(c if c.isalnum() or c in "-_." else "_" for c in label)[:80]
+        out = os.path.join(WORK, f"result-{self.prop}-{safe}-{os.getpid()}.json")
         if os.path.exists(out):
             os.remove(out)
         e = dict(ENV)
@@ -112,14 +113,15 @@ class Run:
         """The harness process died (signal / abort): find the case with a journalled re-run,
         confirm it by replay, minimise it by delta debugging on its list-valued fields."""
         sig = f"exit{r.returncode}" if r.returncode >= 0 else f"signal{-r.returncode}"
-        out = os.path.join(WORK, f"result-{self.prop}-{label}-{os.getpid()}-j.json")
+        safe = "".join(c if c.isalnum() or c in "-_." else "_" for c in label)[:80]
+        out = os.path.join(WORK, f"result-{self.prop}-{safe}-{os.getpid()}-j.json")
         if replay_file or self.replay:
             body = json.load(open(replay_file or self.replay))
             res = {"_label": label, "evaluations": 1, "distinct_nontrivial": 0, "violations": [
                 {"sub": body.get("sub", ""), "key": f"crash", "what": f"harness process died ({sig}) while executing the replay case", "case": body.get("case")}]}
             self.results.append(res)
             return res
-        journal = os.path.join(WORK, f"journal-{self.prop}-{label}-{os.getpid()}.json")
+        journal = os.path.join(WORK, f"journal-{self.prop}-{safe}-{os.getpid()}.json")
         r2 = sh(self._harness_cmd(binary, out, args, journal=journal), timeout=timeout, env=e)
         if os.path.exists(out) or not os.path.exists(journal):
             raise Infra(f"{label} died ({sig}) but the crash did not reproduce under the journal re-run")
